@@ -19,6 +19,9 @@ def main():
     if a.tier not in ("quick", "thorough"):
         a.tier = "quick"
     if a.setup:
+        from . import gen_tables
+
+        gen_tables.gen_c12()
         ok, log = common.lake_build(["MwVerif", "driver"])
         print(log[-3000:])
         sys.exit(0 if ok else 2)
